@@ -38,10 +38,11 @@ ASSUMPTIONS = [
 MIN = {
     "quick": {"same_operation_same_result": 60, "multi_gene_equals_single": 20, "failing_gene_isolated": 8,
               "database_untouched": 150, "evidence_untouched": 80, "hash_seed_independent": 10,
-              "minor_candidate_isolated": 20, "minor_repeat_same": 30},
+              "minor_candidate_isolated": 20, "minor_repeat_same": 30, "parameters_take_effect_on_used_evidence": 6},
     "thorough": {"same_operation_same_result": 800, "multi_gene_equals_single": 250, "failing_gene_isolated": 100,
                  "database_untouched": 1800, "evidence_untouched": 800, "hash_seed_independent": 40,
-                 "minor_candidate_isolated": 300, "minor_repeat_same": 60},
+                 "minor_candidate_isolated": 300, "minor_repeat_same": 60,
+                 "parameters_take_effect_on_used_evidence": 60},
 }
 CASE_TIMEOUT = {"quick": 900, "thorough": 3000}
 TOTAL_TIMEOUT = {"quick": 1800, "thorough": 7200}
@@ -61,6 +62,8 @@ def plan(tier, seed):
         cases.append({"kind": "simple_multi", "seed": seed, "k": k})
     for k in range(20 if tier == "quick" else 250):
         cases.append({"kind": "minor_isolation", "seed": seed, "k": k})
+    for k in range(12 if tier == "quick" else 150):
+        cases.append({"kind": "param_change", "seed": seed, "k": k})
     return cases
 
 
@@ -812,10 +815,76 @@ def _minor_isolation_case(res, case):
     return desc
 
 
+def _param_change_case(res, case):
+    """Stage calls on one loaded sample, then the quality thresholds of its profile are changed and the stages are
+    called again: the result must equal that of a sample loaded the same way on which no stage had run before
+    the change (nothing computed under the earlier parameters may survive on the evidence)."""
+    import copy
+
+    from aldy.cn import estimate_cn
+    from aldy.common import AldyException
+    from aldy.gene import Gene
+    from aldy.major import estimate_major
+    from aldy.minor import estimate_minor
+    from aldy.profile import Profile
+    from aldy.sam import Sample
+
+    rng = util.rng_for("c14p", case["seed"], case["k"])
+    genome = rng.choice(["hg19", "hg38"])
+    db = _sim.gen_db(rng.randrange(30), genome, want_cn=True)
+    g = Gene(db.path, genome=genome)
+    copies = _sim.random_genotype(db, rng, n=2, allow_structural=False)
+    haps = reads.haplotypes_for(g, copies)
+    rds = reads.simulate(g, haps, rl=100, depth=24, ref=db.ref, neutral=db.neutral, rng=rng)
+    # the reads of the second copy are of middling quality: eligible under the first thresholds, not under the new
+    for r in rds:
+        if r.get("hap") == 1:
+            if rng.random() < 0.5:
+                r["qual"] = [22] * len(r["seq"])
+            else:
+                r["mapq"] = 25
+    bam = reads.write_bam(os.path.join(util.scratch_dir(), "pc.bam"), db.chrom, db.contig_len, rds)
+    new = rng.choice([{"min_quality": 30}, {"min_mapq": 40}, {"min_quality": 30, "min_mapq": 40}])
+    desc = {"db": db.label, "planted": [list(c[:2]) for c in copies], "new_thresholds": new}
+
+    def chain(smp):
+        prof = smp.profile
+        cns = estimate_cn(g, prof, smp.coverage, "any")
+        majors = [m for c in cns[:2] for m in estimate_major(g, smp.coverage, c, "any")]
+        minors = estimate_minor(g, smp.coverage, majors[:3], "any") if majors else []
+        return (sorted((tuple(sorted(c.solution.items())), round(c.score, 9)) for c in cns),
+                sorted((tuple(sorted((a.major, n) for a, n in m.solution.items())), tuple(map(str, m.added)),
+                        round(m.score, 9)) for m in majors),
+                sorted((tuple(sorted((a.major, a.minor, tuple(map(str, a.added)), tuple(map(str, a.missing)))
+                                     for a in m.solution)), round(m.score, 6)) for m in minors))
+
+    try:
+        with util.time_limit(120):
+            used = Sample(g, Profile.load(g, db.ref_bam(100, 24), db.cn_region()), bam)
+            before = chain(used)
+            used.profile.update(new)
+            after_used = chain(used)
+            fresh = Sample(g, Profile.load(g, db.ref_bam(100, 24), db.cn_region()), bam)
+            fresh.profile.update(new)
+            after_fresh = chain(fresh)
+    except util.Slow:
+        res.count("skipped_slow")
+        return None
+    except (AldyException, RecursionError):
+        res.count("param_change_rejected")
+        return None
+    res.check("parameters_take_effect_on_used_evidence", after_used == after_fresh,
+              "after changing the quality thresholds, stage calls on a sample that had been used before differ from "
+              "those on the same sample loaded afresh", used=str(after_used)[:400], fresh=str(after_fresh)[:400], **desc)
+    if before != after_fresh:
+        res.count("param_change_changed_the_call")
+    return desc
+
+
 def run(case):
     util.import_aldy()
     res = Res()
-    fn = {"history": _history_case, "api": _api_case, "hashseed": _hashseed_case,
+    fn = {"history": _history_case, "param_change": _param_change_case, "api": _api_case, "hashseed": _hashseed_case,
           "minor_isolation": _minor_isolation_case, "history_shipped": _history_shipped_case,
           "simple_multi": _simple_multi_case}[case["kind"]]
     d = fn(res, case)
